@@ -1,5 +1,4 @@
-\* C01 quick: one 3-slice ReliableOrdered message; every subset / order of deliveries of the 6 data packets
-\* (first transmission and one retransmission) and of the acks, then heal (with or without loss) and good rounds.
+\* C08 quick: 3-slice message, retransmission, acks of both copies
 SPECIFICATION Spec
 CONSTANTS
   ChSC <- Ch_RO
@@ -17,7 +16,7 @@ CONSTANTS
   HealLose = {TRUE, FALSE}
   Reorder = TRUE
   RecvAnywhere = FALSE
-  PropsOn <- P_C01
+  PropsOn <- P_C08
   Export = TRUE
 INVARIANT NoFlag
 INVARIANT ExportInv
